@@ -265,6 +265,14 @@ class World:
         else:
             return "ok"
         if v is None:
+            # not a number: the row is ignored, but a typed value that an earlier row with the same key left behind is
+            # stale and cleared (parsed_line_hook since fix 13f1add)
+            comps = [t] + sym.split(".")
+            n = vdir
+            for c in comps:
+                n = n.kids.get(c) if n is not None else None
+            if n is not None and n.ty == ty:
+                s.clear(n)
             return "ok"
         a = s.create(vdir, [t] + sym.split("."), ty)
         if a is None:
@@ -490,6 +498,14 @@ def vmci_text(rng, collide=None):
         for last in rng.sample(WORDS, rng.randint(2, 3)):
             rows.insert(rng.randint(0, len(rows)), ("%s(%s.%s)=%d" % (t, base, last, rng.randint(0, 64))) if t
                         else "%s.%s=%d" % (base, last, rng.randint(0, 9)))
+    if rng.random() < 0.3:
+        # the same typed key twice: the later row decides (also when its value is not a number: the typed value goes away)
+        t = rng.choice(["OFFSET", "SIZE", "LENGTH", "NUMBER", "SYMBOL"])
+        sym = ".".join(rng.choice(WORDS) for _ in range(rng.randint(1, 2)))
+        vals = ["ffff8000", "1f", "zz", "", "0x"] if t == "SYMBOL" else ["17", "0x20", "12z", "0x", "", "017"]
+        i = rng.randint(0, len(rows))
+        rows.insert(i, "%s(%s)=%s" % (t, sym, rng.choice(vals)))
+        rows.insert(rng.randint(i + 1, len(rows)), "%s(%s)=%s" % (t, sym, rng.choice(vals)))
     if collide:
         for c in collide:
             rows.insert(rng.randint(0, len(rows)), c)
